@@ -74,8 +74,11 @@ func (o *fakeObs) Subscribe(ctx context.Context, _ events.Subscription) (events.
 	}
 	s := &fakeStream{o: o, ch: make(chan events.Message), done: make(chan struct{})}
 	if o.flood {
-		s.ch = make(chan events.Message, 1<<14)
-		for p := 0; p < 4; p++ {
+		s.ch = make(chan events.Message, 1<<16)
+		for len(s.ch) < cap(s.ch) { // full before anyone reads; the producers only have to keep up
+			s.ch <- events.WithValue(values.NewInt(0))
+		}
+		for p := 0; p < 8; p++ {
 			go func() {
 				for {
 					select {
